@@ -1183,10 +1183,15 @@ func (m *Nitro) LoadFromDisk(dir string, concurr int, callb ItemCallback) (*Snap
 		wchan := make(chan int)
 		deltadir := filepath.Join(dir, "delta")
 		var files []string
-		if bs, err := ioutil.ReadFile(filepath.Join(deltadir, "files.json")); err == nil {
-			if err = json.Unmarshal(bs, &files); err != nil {
-				return nil, err
-			}
+		// A backup taken with delta interleaving always has this manifest (it is
+		// written last). Without it the items that the GC workers logged while
+		// the backup was running would be silently missing from the restore.
+		bs, err := ioutil.ReadFile(filepath.Join(deltadir, "files.json"))
+		if err != nil {
+			return nil, err
+		}
+		if err = json.Unmarshal(bs, &files); err != nil {
+			return nil, err
 		}
 
 		readers := make([]FileReader, len(files))
